@@ -783,8 +783,10 @@ def make_rm_reg8(mnemonic, opcode, read_op1=True, write_op1=True):
     return type(mnemonic + "_ins", (rmregbase64,), members)
 
 
-def make_reg_rm64(mnemonic, opcode, read_op1=True, write_op1=True):
-    rm = Operand("rm", rm64_modes)
+def make_reg_rm64(
+    mnemonic, opcode, read_op1=True, write_op1=True, modes=rm64_modes
+):
+    rm = Operand("rm", modes)
     reg = Operand("reg", Register64, write=write_op1, read=read_op1)
     syntax = Syntax([mnemonic, " ", reg, ",", " ", rm], priority=1)
     members = {"syntax": syntax, "rm": rm, "reg": reg, "opcode": opcode}
@@ -991,7 +993,13 @@ MovRegRm8 = make_reg_rm8("mov", 0x8A, read_op1=False)  # mov r8, r/m8
 
 
 # TODO: implement lea otherwise?
-Lea = make_reg_rm64("lea", 0x8D, read_op1=False)
+# lea takes a memory operand only (8D with mod=11 is an invalid opcode):
+Lea = make_reg_rm64(
+    "lea",
+    0x8D,
+    read_op1=False,
+    modes=tuple(m for m in rm64_modes if m is not RmReg64),
+)
 
 
 class regint32base(X86Instruction):
